@@ -166,6 +166,50 @@ func TestC01FullBuffer(t *testing.T) {
 
 func TestC01Overflow(t *testing.T) { overflowTest(t, "C01") }
 
+// ring: more than ten moves out of watched territory leave unmatched rename
+// cookies behind; then moves in from outside, moves within and between watched
+// directories, and ordinary changes. Every event must still arrive (C01), a
+// move in from outside never carries an old name, a move between covered names
+// always does (C11).
+func ringTest(t *testing.T, prop string) {
+	for _, nout := range []int{9, 10, 11, 19, 20, 21, 30} {
+		for _, plug := range []bool{false, true} {
+			c := &engine.Case{Prop: prop, Buf: []int{-1, 0, 64}[nout%3]}
+			c.Setup = []engine.Step{{K: engine.KMkdir, P: "d0"}, {K: engine.KMkdir, P: "d1"}, {K: engine.KMkdir, P: "u"}, {K: engine.KCreate, P: "u/in0"}, {K: engine.KCreate, P: "u/in1"}}
+			c.Steps = []engine.Step{{K: engine.KAdd, P: "d0"}, {K: engine.KAdd, P: "./d1/"}}
+			if plug {
+				c.Steps = append(c.Steps, engine.Step{K: engine.KPlug})
+			}
+			for i := 0; i < nout; i++ {
+				f := engine.P(fmt.Sprintf("d0/o%d", i))
+				c.Steps = append(c.Steps, engine.Step{K: engine.KCreate, P: f}, engine.Step{K: engine.KRename, P: f, Q: engine.P(fmt.Sprintf("u/o%d", i))})
+				if !plug {
+					c.Steps = append(c.Steps, engine.Step{K: engine.KSync})
+				}
+			}
+			c.Steps = append(c.Steps,
+				engine.Step{K: engine.KRename, P: "u/in0", Q: "d0/in0"},    // in from outside: no old name
+				engine.Step{K: engine.KRename, P: "d0/in0", Q: "d1/moved"}, // between covered names: old name
+				engine.Step{K: engine.KRename, P: "d1/moved", Q: "d1/moved2"},
+				engine.Step{K: engine.KRename, P: "u/in1", Q: "d1/in1"},
+				engine.Step{K: engine.KWrite, P: "d1/moved2", N: 1}, engine.Step{K: engine.KSync}, engine.Step{K: engine.KList})
+			w := engine.Exec(c)
+			engine.RecordCase(prop, c, w, true)
+			engine.StatsFor(prop).AddFeat("ring-cases", 1)
+			owned := map[string]bool{engine.FFrom: true, engine.FWedge: true}
+			if prop == "C01" {
+				owned = map[string]bool{engine.FMissing: true, engine.FWedge: true, engine.FClosed: true}
+			}
+			if rep := engine.Report(c, w, owned); rep != nil {
+				t.Fatalf("property %s violated (replay %s)\ncase: %s\n%s", prop, engine.SaveReplay(prop, c), c, strings.Join(rep, "\n"))
+			}
+		}
+	}
+}
+
+func TestC01Ring(t *testing.T) { ringTest(t, "C01") }
+func TestC11Ring(t *testing.T) { ringTest(t, "C11") }
+
 // ---- C10: kernel queue overflow ------------------------------------------------
 
 func TestC10Overflow(t *testing.T) { overflowTest(t, "C10") }
